@@ -88,6 +88,7 @@ type Config struct {
 	ReuseRxBuffer bool                       // responses are returned in ONE receive buffer that the next response overwrites (as link drivers do)
 	PaceReflector bool                       // hostile: PACE without the password by echoing the terminal's agreement key and token
 	AbsentSW      map[uint16]uint16          // status word for SELECT of particular absent files (default 6A82)
+	NoSessionSW   uint16                     // answer to a secure-messaging command when no session is open (after an abort); 0 = 6882.  Chips differ: 6882, 6987, 6988, 6982 are all met.
 	OpenLDS       bool                       // LDS files readable without secure messaging (no access control)
 	StrictAuthLe  bool                       // refuse INTERNAL AUTHENTICATE when Ne is smaller than the signature (default: Ne ignored)
 	SelectNeedsSM bool                       // SELECT of an LDS EF without SM answers 6982 (else only READ BINARY does)
@@ -250,7 +251,10 @@ func (c *Chip) process(cmd []byte) []byte {
 		if c.SM == nil {
 			ex.Note = "SM command without session"
 			ex.SW = 0x6882
-			return sw(0x6882)
+			if c.Cfg.NoSessionSW != 0 {
+				ex.SW = c.Cfg.NoSessionSW
+			}
+			return sw(ex.SW)
 		}
 		u, err := c.SM.UnwrapCommand(cmd)
 		if err != nil {
